@@ -51,6 +51,16 @@ impl Probe for FailOnce {
     }
 }
 
+/// Fails the first write of a command record (`command-N.json`) of the CA store.
+struct FailCommandStore { armed: AtomicBool, hit: AtomicBool }
+impl Probe for FailCommandStore {
+    fn on_event(&self, ev: &Event) -> bool {
+        let is_cmd = ev.key.as_deref().map(|k| k.starts_with("command-")).unwrap_or(false);
+        if ev.kind == "store" && is_cmd && ev.ns.trim_end_matches('/').ends_with("cas") && self.armed.swap(false, Ordering::SeqCst) { self.hit.store(true, Ordering::SeqCst); return false }
+        true
+    }
+}
+
 #[derive(Clone, Debug)]
 struct CallResult { ca: String, kind: &'static str, roa: Option<String>, ok: bool }
 
@@ -141,7 +151,19 @@ fn run_case(args: &Args, run: u64, seed: u64, w: &mut CaseWriter, jsonl: &mut st
         let visible2 = ks.iter().any(|k| k.ends_with("=> 64997"));
         let caught_up = ks.iter().any(|k| k.ends_with("=> 64998"));
         if hit2 && (r2.is_ok() || m1 != m0 || w1 != m0 || visible2 || (other_ok && !caught_up)) { atomic_ok = false; }
-        phase0 = json!({"cold": {"listener_failure_injected": hit, "call_failed": r.is_err(), "commands_before": n0, "commands_after": n1, "version_seen_by_readers": v1, "change_visible": visible},
+        // A REJECTED command whose audit record cannot be written: the call fails, and nothing may be left behind -
+        // no version consumed in the state readers see, the next command gets the next consecutive number.
+        let q0 = count(&sys);
+        let fail3 = Arc::new(FailCommandStore { armed: AtomicBool::new(true), hit: AtomicBool::new(false) });
+        set_probe(Some(fail3.clone()));
+        let r3 = sys.routes_update("b", &["192.168.77.0/24 => 64512"], &[]);   // outside b's resources: rejected
+        set_probe(None);
+        let hit3 = fail3.hit.load(Ordering::SeqCst);
+        let q1 = count(&sys);
+        let x1 = version_of(&sys, "b");
+        if hit3 && (r3.is_ok() || q1 != q0 || x1 != q0) { atomic_ok = false; }
+        let rejected_audit = json!({"audit_write_failure_injected": hit3, "call_failed": r3.is_err(), "commands_before": q0, "commands_after": q1, "version_seen_by_readers": x1});
+        phase0 = json!({"rejected_command_audit_write_fails": rejected_audit, "cold": {"listener_failure_injected": hit, "call_failed": r.is_err(), "commands_before": n0, "commands_after": n1, "version_seen_by_readers": v1, "change_visible": visible},
                         "stale": {"other_instance_command_stored": other_ok, "listener_failure_injected": hit2, "call_failed": r2.is_err(), "commands_before": m0, "commands_after": m1,
                                   "version_seen_by_readers": w1, "change_visible": visible2, "other_instance_command_visible": caught_up}});
         sys
@@ -307,6 +329,46 @@ fn run_case(args: &Args, run: u64, seed: u64, w: &mut CaseWriter, jsonl: &mut st
                 }
                 Err(e) => { if std::env::var("KV_DEBUG").is_ok() { eprintln!("history {h} error: {e}"); } history_complete = false }
             }
+            // paging and filtering: every page of every filtered view is exactly the matching records, in order,
+            // after skipping `offset` MATCHING records (reference: filter, skip, take over the complete listing)
+            if let Ok(full) = sys.krill.ca_manager().ca_history(&ca_handle(h), serde_json::from_value(json!({"offset": 0, "rows_limit": 100000})).unwrap()) {
+                let all: Vec<(u64, i64, String)> = full.commands.iter().map(|c| (c.version, c.timestamp, c.summary.label.clone())).collect();
+                if all.len() >= 4 {
+                    let mid = all[all.len() / 2].clone();
+                    let late = all[all.len() - 2].clone();
+                    let first_label = all[0].2.clone();
+                    let crits: Vec<Value> = vec![
+                        json!({"after_version": mid.0}), json!({"after": mid.1}), json!({"before": mid.1}), json!({"after": mid.1, "before": late.1}),
+                        json!({"label_excludes": [first_label.clone()]}), json!({"label_includes": [late.2.clone()]}), json!({}),
+                    ];
+                    for base in crits {
+                        for (offset, rows) in [(0usize, 2usize), (1, 2), (2, 1), (3, 100), (all.len(), 5)] {
+                            let mut cj = base.clone(); cj["offset"] = json!(offset); cj["rows_limit"] = json!(rows);
+                            let crit: krill::api::history::CommandHistoryCriteria = serde_json::from_value(cj.clone()).unwrap();
+                            let keep = |r: &(u64, i64, String)| -> bool {
+                                if let Some(b) = base.get("before").and_then(|x| x.as_i64()) { if r.1 > b { return false } }
+                                if let Some(a) = base.get("after").and_then(|x| x.as_i64()) { if r.1 < a { return false } }
+                                if let Some(v) = base.get("after_version").and_then(|x| x.as_u64()) { if r.0 <= v { return false } }
+                                if let Some(inc) = base.get("label_includes").and_then(|x| x.as_array()) { if !inc.iter().any(|l| l == &json!(r.2)) { return false } }
+                                if let Some(exc) = base.get("label_excludes").and_then(|x| x.as_array()) { if exc.iter().any(|l| l == &json!(r.2)) { return false } }
+                                true
+                            };
+                            let matching: Vec<u64> = all.iter().filter(|r| keep(r)).map(|r| r.0).collect();
+                            let expect: Vec<u64> = matching.iter().skip(offset).take(rows).cloned().collect();
+                            match sys.krill.ca_manager().ca_history(&ca_handle(h), crit) {
+                                Ok(page) => {
+                                    let got: Vec<u64> = page.commands.iter().map(|c| c.version).collect();
+                                    if got != expect || page.total != matching.len() {
+                                        if std::env::var("KV_DEBUG").is_ok() { eprintln!("history page {h} {cj}: got {got:?} total {} expected {expect:?} total {}", page.total, matching.len()); }
+                                        history_complete = false;
+                                    }
+                                }
+                                Err(_) => history_complete = false,
+                            }
+                        }
+                    }
+                }
+            }
         }
     }
     // every accepted change of every publisher is present: what the live publication server answers (its cached
@@ -346,6 +408,53 @@ fn run_case(args: &Args, run: u64, seed: u64, w: &mut CaseWriter, jsonl: &mut st
     if completed { drop(sys); let _ = std::fs::remove_dir_all(&dir); }
 }
 
+/// Mutual exclusion of one scope across an entity deletion (what `drop_aggregate` does): T1 holds the scope lock and
+/// deletes the scope inside its transaction while T2 is already waiting for the lock; once T2 is inside, T3 arrives.
+/// At no time may two of them be inside the scope. Forced with flags and sleeps, on both back-ends.
+fn scope_exclusion_probe(args: &Args, impl_failures: &mut Vec<Value>) -> Value {
+    use krill::commons::storage::StorageSystem;
+    use std::sync::atomic::AtomicI64;
+    let mut report = serde_json::Map::new();
+    for disk in [false, true] {
+        let dir = args.out.join("lockprobe");
+        let _ = std::fs::remove_dir_all(&dir);
+        let storage = if disk { std::fs::create_dir_all(&dir).unwrap(); StorageSystem::new_disk(dir.clone()) } else { StorageSystem::new_memory(Some(args.seed.wrapping_add(991))) };
+        let store = Arc::new(storage.open(Ident::make("lockprobe")).expect("open"));
+        let scope = Ident::boxed_from_string("entity".to_string()).unwrap();
+        let key = Ident::boxed_from_string("counter.json".to_string()).unwrap();
+        store.store(Some(&scope), &key, &0u64).expect("store");
+        let inside = Arc::new(AtomicI64::new(0));
+        let overlap = Arc::new(AtomicBool::new(false));
+        let t2_inside = Arc::new(AtomicBool::new(false));
+        let enter = |inside: &AtomicI64, overlap: &AtomicBool| { if inside.fetch_add(1, Ordering::SeqCst) != 0 { overlap.store(true, Ordering::SeqCst); } };
+        let leave = |inside: &AtomicI64| { inside.fetch_sub(1, Ordering::SeqCst); };
+        let mut hs = Vec::new();
+        { // T1: holds the lock, lets T2 queue up, deletes the scope, leaves
+            let (store, scope, inside, overlap) = (store.clone(), scope.clone(), inside.clone(), overlap.clone());
+            hs.push(std::thread::spawn(move || { let _ = store.execute(Some(&scope), |kv| { enter(&inside, &overlap); std::thread::sleep(Duration::from_millis(300)); let r = kv.delete_scope(&scope); std::thread::sleep(Duration::from_millis(50)); leave(&inside); r }); }));
+        }
+        std::thread::sleep(Duration::from_millis(100));
+        { // T2: queued while T1 is inside; stays inside for a while
+            let (store, scope, key, inside, overlap, t2_inside) = (store.clone(), scope.clone(), key.clone(), inside.clone(), overlap.clone(), t2_inside.clone());
+            hs.push(std::thread::spawn(move || { let _ = store.execute(Some(&scope), |kv| { enter(&inside, &overlap); t2_inside.store(true, Ordering::SeqCst); std::thread::sleep(Duration::from_millis(400)); let r = kv.store(Some(&scope), &key, &1u64); leave(&inside); r }); }));
+        }
+        // T3: arrives once T2 is inside
+        let t0 = std::time::Instant::now();
+        while !t2_inside.load(Ordering::SeqCst) && t0.elapsed() < Duration::from_secs(10) { std::thread::sleep(Duration::from_millis(10)); }
+        {
+            let (store, scope, key, inside, overlap) = (store.clone(), scope.clone(), key.clone(), inside.clone(), overlap.clone());
+            hs.push(std::thread::spawn(move || { let _ = store.execute(Some(&scope), |kv| { enter(&inside, &overlap); std::thread::sleep(Duration::from_millis(50)); let r = kv.store(Some(&scope), &key, &2u64); leave(&inside); r }); }));
+        }
+        for h in hs { let _ = h.join(); }
+        let bad = overlap.load(Ordering::SeqCst);
+        let name = if disk { "disk" } else { "memory" };
+        report.insert(name.to_string(), json!({"two_threads_inside_one_scope": bad}));
+        if bad { impl_failures.push(json!({"index": null, "class": {"scope_lock_not_exclusive": true, "backend": name}, "what": format!("{name} back-end: two threads were inside the same scope at the same time around a delete_scope (T1 deletes the scope while T2 waits for its lock, T3 arrives while T2 is inside)")})); }
+        let _ = std::fs::remove_dir_all(&dir);
+    }
+    Value::Object(report)
+}
+
 fn main() {
     let args = Args::parse("conc");
     let n_runs = args.get_u64("runs", if args.thorough() { 200 } else { 12 });
@@ -364,8 +473,9 @@ fn main() {
         run_case(&args, run, seed, &mut w, &mut jsonl, &mut stats, &mut distinct, &mut samples, &mut impl_failures);
     }
     w.flush();
+    let lock_probe = scope_exclusion_probe(&args, &mut impl_failures);
     write_json(&args.out.join("stats.json"), &json!({
-        "scenario": "conc", "seed": args.seed, "tier": args.tier, "runs": n_runs,
+        "scenario": "conc", "scope_exclusion_probe": lock_probe, "seed": args.seed, "tier": args.tier, "runs": n_runs,
         "evaluations": w.total, "distinct_nontrivial": distinct.len(),
         "rule": "each run: TA->a->{b->c,d} hierarchy on memory (2/3) or disk (1/3) storage, then 2-6 worker threads x 3-8 operations (unique ROA additions, rejected ROA additions, parent syncs, repository syncs, key roll init/activate, re-publication) plus a scheduler stand-in thread running queued tasks, with seed-derived yields/sleeps at every probe point; the probe records lock events, mutations and cache writes per thread; one case = the global lock-event order, the harness-computed rank certificate, the entity-level trace and the observable conclusions; non-trivial = more than one thread took locks; distinct = distinct (workers, lock events, trace length)",
         "probe_event_distribution": stats, "samples": samples, "impl_failures": impl_failures,
